@@ -993,13 +993,15 @@ class SupportGenerator(CodeGenerator):
         target: pathlib.Path,
         line_pps: typing.List["nunavut._postprocessors.LinePostProcessor"],
     ) -> None:
-        with open(str(target), "w", encoding="utf-8") as target_file:
-            with open(str(resource), "r", encoding="utf-8") as resource_file:
+        with open(str(target), "w", encoding="utf-8", newline="") as target_file:
+            with open(str(resource), "r", encoding="utf-8", newline="\n") as resource_file:
                 for resource_line in resource_file:
-                    if len(resource_line) > 1 and resource_line[-2] == "\r":
+                    if resource_line.endswith("\r\n"):
                         resource_line_tuple = (resource_line[0:-2], "\r\n")
-                    else:
+                    elif resource_line.endswith("\n"):
                         resource_line_tuple = (resource_line[0:-1], "\n")
+                    else:
+                        resource_line_tuple = (resource_line, "")
                     for line_pp in line_pps:
                         resource_line_tuple = line_pp(resource_line_tuple)
                     target_file.write(resource_line_tuple[0])
